@@ -87,6 +87,42 @@ def extract_variant(tools_c):
     return v
 
 
+def extract_entry_points(repo):
+    """public functions / attributes that reach the element <-> Cartesian mechanism"""
+    h = open(os.path.join(repo, "src", "rebound.h")).read()
+    th = open(os.path.join(repo, "src", "tools.h")).read()
+    cnames = set()
+    pat = re.compile(r"^(reb_particle_from_orbit(_err)?|reb_orbit_from_particle(_err)?|reb_M_to_E|reb_E_to_f|reb_M_to_f|reb_mod2pi|"
+                     r"reb_particle_from_pal|reb_simulation_add_fmt|reb_particle_from_fmt|reb_particle_derivative_\w+|reb_simulation_output_orbits)$")
+    for m in re.finditer(r"DLLEXPORT[^;(]*?\b(reb_\w+)\s*\(", h):
+        if pat.match(m.group(1)):
+            cnames.add(m.group(1))
+    for m in re.finditer(r"\b(reb_tools_solve_kepler_pal|reb_tools_particle_to_pal)\s*\(", th):
+        cnames.add(m.group(1))
+    py = set()
+    tools = open(os.path.join(repo, "rebound", "tools.py")).read()
+    for m in re.finditer(r"^def (mod2pi|M_to_f|E_to_f|M_to_E)\(", tools, flags=re.M):
+        py.add("rebound." + m.group(1))
+    part = open(os.path.join(repo, "rebound", "particle.py")).read()
+    for m in re.finditer(r"@property\s+def (\w+)\(self\):\s*(?:\"\"\".*?\"\"\"\s*)?((?:.*\n){1,4}?)\s*(?=@|def )", part):
+        if ".orbit()" in m.group(2):
+            py.add("Particle." + m.group(1))
+    for m in re.finditer(r"@(\w+)\.setter\s+def \w+\(self,\s*value\):((?:.*\n){1,12}?)\s*(?=@|def )", part):
+        if "self.orbit()" in m.group(2) or "Particle(" in m.group(2):
+            py.add("Particle." + m.group(1) + ".setter")
+    for nm in ("__init__", "orbit", "sample_orbit"):
+        if re.search(r"def %s\(self" % nm, part):
+            py.add("Particle." + nm)
+    orb = open(os.path.join(repo, "rebound", "orbit.py")).read()
+    if re.search(r"def E\(self\)", orb):
+        py.add("Orbit.E")
+    simpy = open(os.path.join(repo, "rebound", "simulation.py")).read()
+    for nm in ("add", "orbits"):
+        if re.search(r"def %s\(self" % nm, simpy):
+            py.add("Simulation." + nm)
+    return sorted(cnames), sorted(py)
+
+
 def lean_list(names):
     bad = [n for n in names if n not in ARGS]
     if bad:
